@@ -174,19 +174,19 @@ func c12HTML(r *rand.Rand, long bool) c12Doc {
 		fmt.Fprintf(&sb, "<%s id=\"m\" %s%s\"%s\" data-x=\"charset=decoy\"%s", meta, csAttr, eq, L, end)
 	case 4:
 		d.syntax = "pragma-equiv-first"
-		fmt.Fprintf(&sb, "<%s %s%s\"%s\" %s%s\"text/html; charset=%s\"%s", meta, randCase(r, "http-equiv"), eq, randCase(r, "Content-Type"), randCase(r, "content"), eq, L, end)
+		fmt.Fprintf(&sb, "<%s %s%s\"%s\" %s%s\"text/html; %s=%s\"%s", meta, randCase(r, "http-equiv"), eq, randCase(r, "Content-Type"), randCase(r, "content"), eq, randCase(r, "charset"), L, end)
 	case 5:
 		d.syntax = "pragma-content-first"
-		fmt.Fprintf(&sb, "<%s %s%s\"text/html; charset=%s\" %s%s\"%s\"%s", meta, randCase(r, "content"), eq, L, randCase(r, "http-equiv"), eq, randCase(r, "content-type"), end)
+		fmt.Fprintf(&sb, "<%s %s%s\"text/html; %s=%s\" %s%s\"%s\"%s", meta, randCase(r, "content"), eq, randCase(r, "charset"), L, randCase(r, "http-equiv"), eq, randCase(r, "content-type"), end)
 	case 6:
 		d.syntax = "pragma-charset-spaces"
-		fmt.Fprintf(&sb, "<%s %s='Content-Type' %s='text/html;charset = %s ; x=y'%s", meta, randCase(r, "http-equiv"), randCase(r, "content"), L, end)
+		fmt.Fprintf(&sb, "<%s %s='Content-Type' %s='text/html;%s = %s ; x=y'%s", meta, randCase(r, "http-equiv"), randCase(r, "content"), randCase(r, "charset"), L, end)
 	case 7:
 		d.syntax = "pragma-quoted-inside"
-		fmt.Fprintf(&sb, "<%s %s=\"content-type\" %s=\"text/html; charset='%s'\"%s", meta, randCase(r, "http-equiv"), randCase(r, "content"), L, end)
+		fmt.Fprintf(&sb, "<%s %s=\"content-type\" %s=\"text/html; %s='%s'\"%s", meta, randCase(r, "http-equiv"), randCase(r, "content"), randCase(r, "charset"), L, end)
 	default:
 		d.syntax = "pragma-unquoted-attrs"
-		fmt.Fprintf(&sb, "<%s %s=Content-Type %s=\"text/html;charset=%s\"%s", meta, randCase(r, "http-equiv"), randCase(r, "content"), L, end)
+		fmt.Fprintf(&sb, "<%s %s=Content-Type %s=\"text/html;%s=%s\"%s", meta, randCase(r, "http-equiv"), randCase(r, "content"), randCase(r, "charset"), L, end)
 	}
 	d.declEnd = sb.Len()
 	sb.WriteString([]string{"", "</head><body>hello</body></html>", "<title>x</title>\n<p>caf\xE9</p>", "\n<body>\xC3\xA9\xFF text"}[r.Intn(4)])
